@@ -99,6 +99,13 @@ Example C20_ex_concurrent_recreate_reuses :
   end = true.
 Proof. vm_compute. reflexivity. Qed.
 
+(** no path through newACMEClientWithAccount or the compare-and-delete of the recreate path —
+    success, error, storage fault — leaks the registration lock: when nothing is in flight it is free *)
+Theorem C20_lock_free_when_quiescent : forall s,
+  reachable s -> (forall t, finished (t_pc (thr s t)) = true) -> lock s = None.
+Proof. exact lock_free_when_quiescent. Qed.
+Print Assumptions C20_lock_free_when_quiescent.
+
 (** the account files of another CA (production vs. test) are never touched *)
 Theorem C20_only_directory_in_use_touched : forall s t f s1 c,
   step s (Op t f) = Some s1 -> c <> t_ca (thr s t) -> slots s1 c = slots s c.
